@@ -14,7 +14,7 @@ META = dict(
     property_id="C35", engine="Session",
     technique="TLA+ model of the session store; TLC-simulated call programs replayed on the real SessionStore through a go test -overlay file; call logs trace-validated by TLC",
     level="model_checking",
-    level_text="TLC checks the C35 clauses exhaustively on the design model (<= 4 tokens, clock 0..5, secret change) and is the oracle for every call of the real SessionStore: each recorded call/result line must be a step of the model without deviations. Programs are TLC simulation walks (create/refresh/revoke/validate/forge/secret change/clock), with 15 kinds of token modification chosen by the driver.",
+    level_text="TLC checks the C35 clauses exhaustively on the design model (quick: <= 4 tokens, clock 0..5; thorough: <= 6 tokens, clock 0..6; secret change, one access-only token) and is the oracle for every call of the real SessionStore: each recorded call/result line must be a step of the model without deviations. Programs are TLC simulation walks (create/refresh/revoke/validate/forge/secret change/clock), with 15 kinds of token modification chosen by the driver.",
     level_note="Real time: one tick = one wall-clock second, TTLs 2.5 s / 4.5 s, calls placed >= 150 ms away from every expiry boundary and re-run when a call leaves its window. The driver is compiled into package main of tools/httpserver (overlay, no tree edit) and calls SessionStore directly, not through HTTP. Token strings are abstracted to ids; signature forgery is limited to what an outsider knowing the source can compute.",
     design_ref="C35",
 )
@@ -206,10 +206,11 @@ def run(c):
     # 1. design level
     mc = c.tlc_must_pass("Session", c.pick("Session_mc.cfg", "Session_mc_thorough.cfg"), workers=6,
                          timeout=c.pick(400, 1500), coverage=True)
-    dead = [a for a, (d, t) in mc.coverage.items() if t == 0 and a in
-            ("Tick", "SetSecret", "Create", "CreateToken", "Validate", "Forge", "Refresh", "Revoke")]
-    if dead:
-        raise vlib.InfraError("actions never taken in the exhaustive model: %s" % dead)
+    acts = re.findall(r"^<(\w+) line (\d+), col \d+ to line \d+, col \d+ of module Session[^>]*>: (\d+):(\d+)", mc.out, re.M)
+    dead = ["%s@%s" % (n, ln) for n, ln, d, t in acts if int(t) == 0]
+    if dead or len(acts) < 8:
+        raise vlib.InfraError("actions never taken in the exhaustive model (or no coverage output): %s" % dead)
+    action_cov = {"%s@%s" % (n, ln): [int(d), int(t)] for n, ln, d, t in acts}
     # 2. programs from TLC simulation
     walks = c.pick(260, 900)
     sim = c.tlc("Session", "Session_sim.cfg", simulate="num=%d" % walks, depth=20, deadlock=False, timeout=600,
@@ -304,8 +305,7 @@ def run(c):
              "the Validate/Refresh/Forge calls; programs are TLC simulation walks of Session (12 steps), selected to cover every "
              "(call, token state) class TLC reached at least 3 times",
         situations=hit, modification_kinds=mutkinds, design_model=mc.summary(),
-        coverage_actions={k: list(v) for k, v in mc.coverage.items() if k in
-                          ("Tick", "SetSecret", "Create", "CreateToken", "Validate", "Forge", "Refresh", "Revoke")},
+        coverage_actions=action_cov,
         driver=summ, strict_rejections=len(rej),
     ))
     c.assumptions += [
